@@ -72,10 +72,10 @@ class YowNetworkLayer(YowLayer, ConnectionCallbacks):
 
     @EventCallback(EVENT_STATE_CONNECT)
     def onConnectLayerEvent(self, ev):
-        if not self.connected:
+        if self.state == self.__class__.STATE_DISCONNECTED:
             self.createConnection()
         else:
-            logger.warn("Received connect event while already connected")
+            logger.warn("Received connect event while a connection exists (state=%s)" % self.state)
         return True
 
     @EventCallback(EVENT_STATE_DISCONNECT)
